@@ -94,6 +94,8 @@ def run(prop, tier, seed):
         else:
             mon = common.run_sharded(mod.worker, tier, seed)
         extra = mod.extra_coverage(mon) if hasattr(mod, "extra_coverage") else None
+        import featcheck
+        featcheck.run(mon, prop, seed)
         return common.finish(prop, LEVEL.get(prop, "exploration"), tier, seed, mon, t0, mod.RULE,
                              ASSUME_E1 + getattr(mod, "ASSUME", []), extra)
     if prop in E2_PROPS:
@@ -106,6 +108,8 @@ def run(prop, tier, seed):
             pass
         if mod is not None:
             mod.extra(mon, tier, seed)  # e.g. Miri runs, E1 own-key paths
+        import featcheck
+        featcheck.run(mon, prop, seed)
         if tier == "thorough" and prop != "C12":
             # the reduced workload of the same monitor under the UB interpreter, several workload seeds in parallel
             import miri
@@ -123,6 +127,19 @@ def run(prop, tier, seed):
 def replay(rp):
     prop = rp["property"]
     r = rp["replay"]
+    if r.get("engine") == "wsf":
+        import featcheck
+        rc, out = featcheck.build(r["combo"])
+        if rc != 0:
+            print("replay: the feature set does not build")
+            return 2
+        rc, lines = featcheck.run_binary(r["combo"], r.get("seed", 1))
+        bad = [l for l in lines if l.startswith("VIOL ")]
+        for l in bad[:10]:
+            print("VIOLATION property=%s replay=(replayed) %s" % (prop, l[5:300]))
+        if not bad:
+            print("replay: no violation reproduced")
+        return 1 if bad else 0
     if r.get("engine") == "wsm":
         args = [WSM, prop, "--replay"] + list(r.get("args", []))
         p = subprocess.run(args)
